@@ -5,6 +5,7 @@ import PrysmVerif.Lemmas.C03Czt
 import PrysmVerif.Lemmas.C03Exec
 import PrysmVerif.Lemmas.C05Instance
 import Mathlib.Tactic.NormNum
+import Mathlib.Tactic.LinearCombination
 /-!
 # C03 — output sampling and coordinates are physically correct
 
@@ -58,7 +59,15 @@ theorem gen_shift (s0 s1 M0 M1 dx z lam dxo sh0 sh1 : K) :
     ufsShift1 s0 s1 M0 M1 dx z lam dxo sh0 sh1 = Model.C03.shiftSamples sh1 dxo := by
   refine ⟨?_, ?_, ?_, ?_⟩ <;>
     simp only [ffsShift0, ffsShift1, ufsShift0, ufsShift1, Model.C03.shiftSamples, ofInt_eq, Int.cast_zero] <;>
-    (try split) <;> (try simp_all) <;> (try ring)
+    first
+      | ring1
+      | (split_ifs with h
+         · ring1
+         · obtain ⟨h1, h2⟩ := not_or.mp h
+           rw [not_not] at h1 h2
+           first
+             | linear_combination (1 - 1 / dxo) * h1
+             | linear_combination (1 - 1 / dxo) * h2)
 
 /-- `Wavefront.focus` / `unfocus` report the spacing computed from axis 1 of the propagated array -/
 theorem gen_reportedDx (dx N0 N1 lam efl : K) :
@@ -642,7 +651,8 @@ theorem fft_route_samples_F_unfocus (e : R → V) (n N : Nat) (hnN : n ≤ N) (d
   rw [sum_padded n N hnN f (fun c => e (-(c * coord N l / (N : R))))]
   refine Finset.sum_congr rfl fun i _ => ?_
   congr 3
-  simp only [Generated.C03.unfocusDx, Generated.C03.psfToPupil, Model.C03.qForSampling, Model.C03.pupilToPsf, Model.C03.psfToPupil]
+  simp only [Generated.C03.unfocusDx, Generated.C03.psfToPupil, Generated.C03.pupilToPsf, Model.C03.qForSampling, Model.C03.pupilToPsf,
+    Model.C03.psfToPupil]
   field_simp
 
 /-- spot location through the FFT route (one axis, as written in the source): the padded, rotated, transformed, rotated-back
